@@ -12,6 +12,7 @@ import json, os, random, sys, time, traceback
 sys.path.insert(0, os.path.dirname(os.path.abspath(__file__)))
 from common import *
 import checks
+import checks2
 
 
 def proof_side(prop, ctx):
@@ -27,6 +28,9 @@ def proof_side(prop, ctx):
     probs = []
     if bad:
         probs.append(("forbidden-vernacular", "\n".join(bad[:20])))
+    if not os.path.exists(os.path.join(COQ, "props", "%s.v" % prop)):
+        # no theorem file for this property yet: the check is a correspondence check only and says so
+        return 0, 0, probs, []
     rc, out = props_check(prop)
     if rc is None or rc != 0:
         probs.append(("props/%s.v" % prop, (out or "")[-3000:]))
